@@ -47,7 +47,9 @@ func loadOverlay(repo, harnessDir string) (map[string][]byte, error) {
 			return err
 		}
 		rel, _ := filepath.Rel(harnessDir, p)
-		if strings.HasPrefix(rel, "verifrt/") {
+		if strings.HasPrefix(rel, "veriflib/") {
+			rel = "internal/" + rel
+		} else if strings.HasPrefix(rel, "verifrt/") {
 			if strings.HasSuffix(rel, "_native.go") {
 				// native implementation is part of the package too (bodies ignored symbolically)
 			}
@@ -77,6 +79,7 @@ func cmdRun(args []string) {
 	only := fs.String("only", "", "decision prefix")
 	maxPaths := fs.Int("maxpaths", 0, "path cap")
 	tabulate := fs.String("tabulate", "", "f1;f2")
+	lockmon := fs.Bool("lockmon", false, "lock discipline monitor")
 	fs.Parse(args)
 	ov, err := loadOverlay(*repo, *hdir)
 	if err != nil {
@@ -89,7 +92,7 @@ func cmdRun(args []string) {
 		os.Exit(2)
 	}
 	cfg := sym.Config{Pkg: *pkg, Harness: *fn, Bounds: map[string]int{}, Stubs: map[string]string{},
-		Workers: *workers, Verbose: *verbose, MapOrderAny: *maporder, Only: *only, MaxPaths: *maxPaths}
+		Workers: *workers, Verbose: *verbose, MapOrderAny: *maporder, Only: *only, MaxPaths: *maxPaths, LockMonitor: *lockmon}
 	for _, kv := range strings.Split(*bounds, ",") {
 		if kv == "" {
 			continue
